@@ -124,6 +124,19 @@ def gen_cases(rng, tier):
             c["env"]["conv_info"] = {"entity_id": S.SP_ID}
             c["tag"] = "addr-indexed-rcp:%s/%s" % (binding, rk)
             yield c
+    # Destination x allow_unsolicited x InResponseTo {outstanding, unknown, absent}: an unsolicited Response is addressed
+    # like any other
+    for binding in ("post", "redirect"):
+        for (dk, d) in addr_values(rng, binding):
+            for uns in (True, False):
+                for irt in ("req-1", "req-unknown", None):
+                    c = C.base_case(PROP, binding=binding)
+                    c["cfg"]["allow_unsolicited"] = uns
+                    c["resp"]["destination"] = d
+                    c["resp"]["in_response_to"] = irt
+                    c["resp"]["assertions"][0]["subject"]["confs"][0]["data"]["irt"] = irt
+                    c["tag"] = "addr-unsolicited:%s/%s/%s/%s" % (binding, dk, uns, irt)
+                    yield c
     # the addressing product again through the second public entry point (authn_response + loads + verify)
     for binding in ("post", "redirect"):
         vals = addr_values(rng, binding)
